@@ -404,6 +404,17 @@ fn main() {
             let s = all.iter().find(|s| s.name() == v["suite"].as_str().unwrap()).expect("suite");
             let mut ctx = wire::WireCtx::new(s.as_ref(), v["seed"].as_u64().unwrap_or(0));
             let input = hex::decode(v["input"].as_str().unwrap()).unwrap();
+            if v["info"]["source"].as_str() == Some("serde structure mutation") {
+                // the input is a serde encoding (JSON text or bincode bytes), not a native one
+                let codec = if v["detail"].as_str().unwrap_or("").contains("Json") { suite::Codec::Json } else { suite::Codec::Bincode };
+                let d = v["decoder"].as_str().unwrap();
+                let got = std::panic::catch_unwind(std::panic::AssertUnwindSafe(|| s.from_serde(d, &input, codec)));
+                match got {
+                    Err(_) => { println!("REPRODUCED panic in the serde decoder of {d}"); std::process::exit(1); }
+                    Ok(Ok(re)) => { println!("decoder accepted; re-encodes to {} bytes: {}", re.len(), hex::encode(&re)); std::process::exit(if v["kind"] == "accepts-wrong-length" { 1 } else { 0 }); }
+                    Ok(Err(e)) => { println!("NOT-REPRODUCED (refused: {e})"); std::process::exit(0); }
+                }
+            }
             ctx.check_one(v["decoder"].as_str().unwrap(), &input, None, &json!({}));
             if ctx.violations.is_empty() {
                 println!("NOT-REPRODUCED (decoder and specification agree on this input)");
